@@ -129,6 +129,9 @@ type verdict struct {
 
 // checkPath evaluates Safety(path) several times (Go randomises map iteration) under the
 // given state and compares with the oracle.
+// reRepls[i] is the replacement registered with regexps[i] (entries in registration order).
+var reRepls []string
+
 func checkPath(t vlib.TB, path string, ms []mapping, regexps []string, flagPath, flagRe bool, hist string, v *verdict) {
 	results := map[string]bool{}
 	for i := 0; i < 16; i++ {
@@ -186,6 +189,25 @@ func checkPath(t vlib.TB, path string, ms []mapping, regexps []string, flagPath,
 	for _, m := range ms {
 		if under(path, m.Prefix) {
 			applicable++
+		}
+	}
+	// a path that no prefix mapping applies to, with the regexp flag on: exactly the registered regexp rewrites,
+	// in registration order, each one if it matches the path as given
+	if flagRe && applicable == 0 && !lookalike && !strings.Contains(path, "/Volumes/") && len(reRepls) == len(regexps) {
+		exp, matched := path, false
+		for i, ex := range regexps {
+			if re := regexp.MustCompile(ex); re.MatchString(path) {
+				exp, matched = re.ReplaceAllString(exp, reRepls[i]), true
+			}
+		}
+		if matched {
+			v.labels["regexp-mappings-only(exact)"] = true
+			for r := range results {
+				if r != exp {
+					vlib.Discrep(t, "C18/regexp", "C18 after [%s]: Safety(%q) = %q; the registered regexp mappings %q -> %q rewrite it to %q", hist, path, r, regexps, reRepls, exp)
+				}
+			}
+			return
 		}
 	}
 	switch {
@@ -292,7 +314,9 @@ func genPath(t *rapid.T, ms []mapping) string {
 	for _, m := range ms {
 		bases = append(bases, m.Prefix)
 	}
-	switch k := rapid.IntRange(0, 9).Draw(t, "pathKind"); {
+	switch k := rapid.IntRange(0, 11).Draw(t, "pathKind"); {
+	case k >= 10: // shapes the registered regexp mappings are written for (outside the prefix mappings unless one was added there)
+		return rapid.SampledFrom([]string{"/srv/" + genComp().Draw(t, "srv"), "/opt/x", "/opt/y/z", "/data/node_modules/pkg", "/var/r2d2/v10", "/srv/a/node_modules/b7"}).Draw(t, "reShape") + sub + "/" + file
 	case k <= 3 && len(bases) > 0:
 		return strings.TrimRight(rapid.SampledFrom(bases).Draw(t, "base"), "/") + sub + "/" + file
 	case k == 4:
@@ -354,6 +378,7 @@ func TestSafety(t *testing.T) {
 		resetTables()
 		ms := []mapping{{homeDir, "~"}, {cwdDir, "."}}
 		regexps := []string{`/Volumes/[^/]+/`}
+		reRepls = []string{"~"}
 		var hist []string
 		v := &verdict{labels: map[string]bool{}}
 		nops := rapid.IntRange(0, 6).Draw(t, "tableOps")
@@ -424,12 +449,20 @@ func TestSafety(t *testing.T) {
 				ex := rapid.SampledFrom(rePatterns).Draw(t, "regexp")
 				slog.AddKnownPathRegexpMapping(ex, "~re")
 				regexps = append(regexps, ex)
+				reRepls = append(reRepls, "~re")
 				hist = append(hist, fmt.Sprintf("AddKnownPathRegexpMapping(%q)", ex))
 			default:
 				if len(regexps) > 0 {
 					j := rapid.IntRange(0, len(regexps)-1).Draw(t, "removere")
+					for k := range regexps { // the package removes the FIRST entry with that expression
+						if regexps[k] == regexps[j] {
+							j = k
+							break
+						}
+					}
 					slog.RemoveKnownPathRegexpMapping(regexps[j])
 					hist = append(hist, fmt.Sprintf("RemoveKnownPathRegexpMapping(%q)", regexps[j]))
+					reRepls = append(reRepls[:j], reRepls[j+1:]...)
 					// the package removes the first entry with that expression
 					regexps = append(regexps[:j], regexps[j+1:]...)
 				}
@@ -614,6 +647,7 @@ func FuzzSafety(f *testing.F) {
 		v := &verdict{labels: map[string]bool{}}
 		resetTables()
 		slog.SetFlags(vlib.BaseFlags | slog.Lprivacypath | slog.Lprivacypathregexp)
+		reRepls = []string{"~"}
 		checkPath(t, path, []mapping{{homeDir, "~"}, {cwdDir, "."}}, []string{`/Volumes/[^/]+/`}, true, true, "initial tables", v)
 		slog.SetFlags(vlib.BaseFlags | slog.Lprivacypath)
 		checkPath(t, path, []mapping{{homeDir, "~"}, {cwdDir, "."}}, nil, true, false, "initial tables, regexp flag off", v)
